@@ -472,6 +472,176 @@ Proof.
   rewrite (list_to_dict_entries kvs [] Hkeys Hdist). reflexivity.
 Qed.
 
+(* ------------------------------------------------------------- repeated .r on a channel *)
+Lemma kg_read_dict : forall kvs fuel rest inl, writable E (VDict kvs) = true -> stops rest ->
+  (2 * length (write E C (VDict kvs)) + 4 <= fuel)%nat ->
+  kg_read E C fuel (write E C (VDict kvs) ++ rest) true inl = Ok (Some (VDict kvs), rest).
+Proof.
+  intros kvs fuel rest inl Hw Hr Hfuel. unfold writable in Hw. cbn [wr negb andb] in Hw.
+  apply andb_true_iff in Hw as [Hent Hdist].
+  rewrite forallb_forall in Hent.
+  assert (Hall : Forall elem_ok (map entry kvs)).
+  { rewrite Forall_forall. intros e He. apply in_map_iff in He as ([k x] & <- & Hin).
+    specialize (Hent (k, x) Hin). cbn beta iota in Hent.
+    apply andb_true_iff in Hent as [Hent Hwx]. apply andb_true_iff in Hent as [Hent Hndx].
+    apply andb_true_iff in Hent as [Hkey Hwk]. apply negb_true_iff in Hndx.
+    assert (Hndk : is_dict k = false) by (destruct k; try reflexivity; discriminate).
+    pose proof (read_written k false Hwk Hndk) as Hk. pose proof (read_written x false Hwx Hndx) as Hx.
+    unfold entry. cbn [fst snd].
+    split; [apply kg_read_list; apply Forall_cons; [exact Hk | apply Forall_cons; [exact Hx | apply Forall_nil]] | split; [reflexivity |]].
+    exists 91, (join [32] (map (write E C) [k; x]) ++ [93]). repeat split; try lia. }
+  assert (Hkeys : forallb (fun kv => is_key (fst kv)) kvs = true).
+  { apply forallb_forall. intros [k x] Hin. specialize (Hent (k, x) Hin). cbn beta iota in Hent.
+    apply andb_true_iff in Hent as [Hent _]. apply andb_true_iff in Hent as [Hent _].
+    apply andb_true_iff in Hent as [Hkey _]. exact Hkey. }
+  rewrite write_dict_eq in Hfuel |- *.
+  remember (join [32] (map (write E C) (map entry kvs))) as body eqn:Hbody.
+  assert (Hb : (lneed (map entry kvs) <= 2 * length body + 3)%nat).
+  { subst body. apply lneed_bound. rewrite Forall_forall. intros v _. apply need_bound. }
+  cbn [length] in Hfuel. rewrite app_length in Hfuel. cbn [length] in Hfuel.
+  destruct fuel as [| f]; [lia |].
+  cbn [app]. rewrite <- app_assoc. cbn [app].
+  rewrite kg_read_S, skip_lexstart by (cbn; split; [reflexivity | intros _; lia]).
+  unfold kg_dispatch.
+  change (existsb (Z.eqb (if 58 =? 10 then 59 else 58)) (c_delims C)) with false.
+  change (58 =? 10) with false. change (58 =? 48) with false. cbv beta iota. cbn [andb].
+  change (is_numeric E 58) with false. change (58 =? 45) with false. change (58 =? 34) with false.
+  change (58 =? 58) with true. cbn [orb andb app]. cbv beta iota.
+  change (is_alpha E 123) with false. change (123 =? 46) with false. change (is_numeric E 123) with false.
+  change (123 =? 34) with false. change (123 =? 123) with true. cbn [orb]. cbv beta iota.
+  subst body.
+  rewrite (read_list_written 125 (or_intror eq_refl) (map entry kvs) Hall f rest) by lia.
+  rewrite (list_to_dict_entries kvs [] Hkeys Hdist). reflexivity.
+Qed.
+
+(* any writable value at top level, whatever follows it *)
+Lemma top_read : forall v fuel rest, writable E v = true -> stops rest ->
+  (2 * length (write E C v) + 4 <= fuel)%nat ->
+  kg_read E C fuel (write E C v ++ rest) true false = Ok (Some v, rest).
+Proof.
+  intros v fuel rest Hw Hr Hf. destruct (is_dict v) eqn:Hd.
+  - destruct v; try discriminate. apply kg_read_dict; assumption.
+  - destruct (read_written v false Hw Hd) as (Hrd & _ & _). apply Hrd; [exact Hr |].
+    pose proof (need_bound v). lia.
+Qed.
+
+Lemma skip_space_blanks : forall k t inl, skip_space E (repeat 32 k ++ t) inl = skip_space E t inl.
+Proof. induction k as [| k IH]; intros t inl; [reflexivity |]. cbn [repeat app skip_space].
+  change (is_space E 32) with true. change (32 =? 10) with false. rewrite orb_true_r. cbn [andb]. apply IH. Qed.
+
+Lemma skip_blanks : forall f k t inl, skip E f (repeat 32 k ++ t) inl = skip E f t inl.
+Proof. intros f k t inl. destruct f; cbn [skip]; rewrite skip_space_blanks; reflexivity. Qed.
+
+Lemma kg_read_blanks : forall fuel k t rn inl,
+  kg_read E C fuel (repeat 32 k ++ t) rn inl = kg_read E C fuel t rn inl.
+Proof. intros fuel k t rn inl. destruct fuel as [| f]; [reflexivity |]. rewrite !kg_read_S, skip_blanks. reflexivity. Qed.
+
+Lemma asarray_not_none : forall v, writable E v = true -> is_none (asarray E v) = false.
+Proof.
+  intros v Hw. destruct v as [z | r | c | s | s | l | kvs | k]; try reflexivity; [| discriminate].
+  destruct (asarray_list_is_list l) as (l' & ->). reflexivity.
+Qed.
+
+Lemma skipn_prefix : forall (pre tail : list Z), skipn (length (pre ++ tail) - length tail) (pre ++ tail) = tail.
+Proof.
+  intros pre tail. rewrite app_length. replace (length pre + length tail - length tail)%nat with (length pre) by lia.
+  induction pre as [| c pre IH]; [reflexivity | exact IH].
+Qed.
+
+(* one .r() on a channel positioned before (blanks and) a written value reads exactly that value
+   and leaves the channel right behind its text *)
+Lemma r_once_written : forall v k tail, writable E v = true -> stops tail ->
+  r_once E C false false (repeat 32 k ++ write E C v ++ tail) = Ok (asarray E v, tail).
+Proof.
+  intros v k tail Hw Hr. unfold r_once.
+  assert (Hne : exists c r, write E C v = c :: r).
+  { destruct (is_dict v) eqn:Hd.
+    - destruct v; try discriminate. rewrite write_dict_eq. eexists. eexists. reflexivity.
+    - destruct (read_written v false Hw Hd) as (_ & _ & (c & r & He & _)). exists c, r. exact He. }
+  remember (repeat 32 k ++ write E C v ++ tail) as txt eqn:Htxt.
+  assert (Hnil : exists c r, txt = c :: r).
+  { subst txt. destruct k; [| eexists; eexists; reflexivity]. destruct Hne as (c & r & ->). eexists. eexists. reflexivity. }
+  destruct Hnil as (c0 & r0 & Hc0). rewrite Hc0. rewrite <- Hc0.
+  unfold kg_read_array. cbn [c_top_neg std_cfg].
+  rewrite Htxt at 2. rewrite kg_read_blanks.
+  rewrite (top_read v (rs_fuel txt) tail Hw Hr).
+  - assert (Hi : skipn (length txt - length tail) txt = tail).
+    { subst txt. rewrite !app_assoc. apply skipn_prefix. }
+    destruct v as [z | r | c | s | s | l | kvs | kk]; try discriminate;
+      try (cbn [read_data_object c_build_dict std_cfg]; rewrite Hi; reflexivity).
+    destruct (asarray_list_is_list l) as (l' & Hl'). rewrite Hl'. cbn [read_data_object]. rewrite Hi. reflexivity.
+  - unfold rs_fuel. subst txt. rewrite !app_length. lia.
+Qed.
+
+Fixpoint file_text (k : nat) (vs : list val) : list Z :=
+  match vs with
+  | [] => []
+  | [v] => write E C v
+  | v :: rest => write E C v ++ repeat 32 (S k) ++ file_text k rest
+  end.
+
+Lemma file_text_cons2 : forall k v w rest,
+  file_text k (v :: w :: rest) = write E C v ++ repeat 32 (S k) ++ file_text k (w :: rest).
+Proof. reflexivity. Qed.
+
+Lemma read_all_blanks : forall m n, (0 < n)%nat -> read_all E C false false n (repeat 32 m) = Ok [].
+Proof.
+  intros m n Hn. destruct n as [| n]; [lia |]. cbn [read_all]. unfold r_once.
+  destruct m as [| m]; [reflexivity |].
+  cbn [repeat]. change (32 :: repeat 32 m) with (repeat 32 (S m)).
+  unfold kg_read_array. cbn [c_top_neg std_cfg].
+  rewrite <- (app_nil_r (repeat 32 (S m))) at 2. rewrite kg_read_blanks.
+  assert (Hf : exists f, rs_fuel (repeat 32 (S m)) = S f) by (unfold rs_fuel; eexists; rewrite Nat.add_succ_r; reflexivity).
+  destruct Hf as (f & ->). rewrite kg_read_S.
+  replace (skip E f [] false) with (Ok (@nil Z)) by (destruct f; reflexivity).
+  cbn [kg_dispatch read_data_object is_none]. reflexivity.
+Qed.
+
+(* reading a file of written values, separated by k+1 blanks, optionally preceded and followed by blanks:
+   the values come back one per .r, in order, then nothing *)
+Theorem read_all_written : forall k trail vs, Forall (fun v => writable E v = true) vs ->
+  forall n pre, (length vs < n)%nat ->
+  read_all E C false false n (repeat 32 pre ++ file_text k vs ++ repeat 32 trail) = Ok (map (asarray E) vs).
+Proof.
+  intros k trail vs Hall. induction Hall as [| v rest Hv Hrest IH]; intros n pre Hn.
+  - cbn [file_text app map]. rewrite <- repeat_app. apply read_all_blanks. lia.
+  - cbn [length] in Hn. destruct n as [| n]; [lia |]. cbn [map read_all].
+    destruct rest as [| w rest'].
+    + cbn [file_text].
+      assert (Hst : stops (repeat 32 trail)) by (destruct trail; reflexivity).
+      rewrite (r_once_written v pre (repeat 32 trail) Hv Hst), (asarray_not_none v Hv).
+      specialize (IH n 0%nat ltac:(cbn [length]; lia)). cbn [file_text app repeat map] in IH.
+      rewrite IH. reflexivity.
+    + rewrite file_text_cons2. rewrite <- !app_assoc.
+      assert (Hst : stops (repeat 32 (S k) ++ file_text k (w :: rest') ++ repeat 32 trail)) by reflexivity.
+      rewrite (r_once_written v pre _ Hv Hst), (asarray_not_none v Hv).
+      rewrite (IH n (S k) ltac:(cbn [length] in *; lia)). reflexivity.
+Qed.
+
+Lemma write_nonempty : forall v, writable E v = true -> (1 <= length (write E C v))%nat.
+Proof.
+  intros v Hw. destruct (is_dict v) eqn:Hd.
+  - destruct v; try discriminate. rewrite write_dict_eq. cbn [length]. lia.
+  - destruct (read_written v false Hw Hd) as (_ & _ & (c & r & -> & _)). cbn [length]. lia.
+Qed.
+
+Lemma file_text_length : forall k vs, Forall (fun v => writable E v = true) vs ->
+  (length vs <= length (file_text k vs))%nat.
+Proof.
+  intros k vs Hall. induction Hall as [| v rest Hv _ IH]; [cbn; lia |].
+  pose proof (write_nonempty v Hv). destruct rest as [| w rest'].
+  - cbn [file_text length]. lia.
+  - rewrite file_text_cons2, !app_length. cbn [length] in *. lia.
+Qed.
+
+Theorem read_file_written : forall k trail vs, Forall (fun v => writable E v = true) vs ->
+  read_file E C false false (file_text k vs ++ repeat 32 trail) = Ok (map (asarray E) vs).
+Proof.
+  intros k trail vs Hall. unfold read_file.
+  apply (read_all_written k trail vs Hall _ 0%nat).
+  rewrite app_length. pose proof (file_text_length k vs Hall). lia.
+Qed.
+
 Theorem rs_written : forall v, writable E v = true -> rs E C (write E C v) = Ok (asarray E v).
 Proof.
   intros v Hw. destruct (is_dict v) eqn:Hd.
@@ -480,3 +650,8 @@ Proof.
 Qed.
 
 End Main.
+
+Lemma read_file_written_cfg : forall E, env_ok E -> forall c ls bo, c = std_cfg -> ls = false -> bo = false ->
+  forall k trail vs, Forall (fun v => writable E v = true) vs ->
+  read_file E c ls bo (file_text E k vs ++ repeat 32 trail) = Ok (map (asarray E) vs).
+Proof. intros E HE c ls bo -> -> ->. apply read_file_written. exact HE. Qed.
